@@ -733,3 +733,72 @@ def r14d(R):
                 'before it pauses: the delay is wrong by a factor of 1000'
                 % (member.lower(), 'milliseconds' if member == 'RAW' else 'seconds',
                    'divides' if div else 'does not divide'))
+
+
+# ---------------------------------------------------------------- R15.g
+def _clip_facts(A, g):
+    """{field: ('>=', text) | ('<=', text)} established by a clipping helper:
+    statements `<p>.field = max(<p>.field, K)` / `min(<p>.field, K)`."""
+    facts = {}
+    for n in walk_own(g.node):
+        if not (isinstance(n, ast.Assign) and isinstance(n.targets[0], ast.Attribute)
+                and isinstance(n.value, ast.Call) and norm(n.value.func) in ('max', 'min')
+                and len(n.value.args) == 2):
+            continue
+        tgt = norm(n.targets[0])
+        args = [norm(a) for a in n.value.args]
+        if tgt not in args:
+            continue
+        other = args[1 - args.index(tgt)].replace('self._', 'self.')
+        facts[n.targets[0].attr] = (
+            '>=' if norm(n.value.func) == 'max' else '<=', other.replace(' ', ''))
+    return facts
+
+
+@rule('R15.g', ('C15', 'C12'), 'rows and columns given by the script are '
+      'clipped to the matrix before they index its cells', floor=2,
+      decides='a rectangle that reaches beyond the matrix (or a negative '
+              'index) colours the cells that exist and nothing else; it does '
+              'not stop the script')
+def r15g(R):
+    A = R.A
+    cm = A.cls(MATRIX, 'ColorMatrix')
+    want = {'top': ('>=', '0'), 'left': ('>=', '0'),
+            'bottom': ('<=', 'self.height-1'), 'right': ('<=', 'self.width-1')}
+    n_methods = 0
+    for name, m in sorted(cm.methods.items()):
+        mcfg = A.cfg(m)
+        loops = [n for n in mcfg.nodes if n.kind == 'for'
+                 and isinstance(n.ast.iter, ast.Call) and norm(n.ast.iter.func) == 'range'
+                 and any(isinstance(x, ast.Attribute) and isinstance(x.value, ast.Name)
+                         and x.value.id in m.params and x.attr in want
+                         for x in ast.walk(n.ast.iter))]
+        indexed = any(isinstance(x, ast.Subscript) and self_attr(x.value) == '_mat'
+                      or (isinstance(x, ast.Subscript) and isinstance(x.value, ast.Subscript)
+                          and self_attr(x.value.value) == '_mat')
+                      for x in walk_own(m.node))
+        if not loops or not indexed:
+            continue
+        n_methods += 1
+        clips = []
+        for n in mcfg.nodes:
+            for c in n.calls():
+                for g in A.callees(m, c):
+                    f = _clip_facts(A, g)
+                    if all(f.get(k) == v for k, v in want.items()):
+                        clips.append(n)
+        norm_nodes = A.calls_nodes(m, 'ColorMatrix._normalize_rect')
+        ok = bool(clips) and \
+            mcfg.find_path([mcfg.entry], lambda n: n in loops, avoid=clips) is None \
+            and (not norm_nodes or mcfg.find_path(
+                [x for n in clips for x, _l in n.succs],
+                lambda n: n in norm_nodes) is None)
+        R.check(m, '%s: rectangle clipped to 0..height-1 / 0..width-1 before '
+                'the cell loops' % name, ok,
+                'the rows and columns the script supplied index the cell store '
+                'unchecked: a row beyond the height raises IndexError (the '
+                'script stops, nothing is sent), a negative one wraps around '
+                'and colours the last row')
+    if n_methods < 2:
+        raise AnalysisError('R15.g: only %d rectangle loops over the cell store '
+                            'found' % n_methods)
